@@ -1026,7 +1026,9 @@ LEVEL_TEXT = {
            "decomposition argument.",
     "C04": "Bounded model checking of the parser kernels and drivers of all six types on fully symbolic byte strings "
            "against an independent grammar model (quick: <= 10-16 bytes and kernel fields up to 40 bytes; thorough: "
-           "capacity classes up to 40 bytes, kernels up to 72 bytes).",
+           "capacity classes up to 40 bytes, kernels up to 72 bytes).  Dual types: the dual parser is decided equal to the "
+           "raw parser of the same capacity (accepted set, index, errors; compress precondition) on 40-byte texts, its "
+           "results have raw lengths within capacity; the full object-level obligation runs in the thorough tier.",
     "C05": "Bounded model checking of the formatter on symbolic valid objects and symbolic buffers (full capacity in the "
            "thorough tier) against an independent text model; allocating paths with short block hashes.",
     "C06": "Bounded model checking of both instantiations of the normalization kernel against a local-criterion model: "
@@ -1057,8 +1059,9 @@ LEVEL_TEXT = {
            "(full capacity in the thorough tier).",
     "C17": "Bounded model checking from an arbitrary pre-state: init_from / clear / From equal the reference masks; "
            "has_sequences on its complete domain.",
-    "C18": "Bounded model checking of hash_stream_common with a nondeterministic reader (<= 3 reads x <= 2 bytes, "
-           "arbitrary error kind).  hash_file's File::open / metadata are operating-system I/O outside this technique.",
+    "C18": "Bounded model checking of the real read loop hash_stream_common with a scripted nondeterministic reader (stream "
+           "<= 6 bytes in arbitrary chunks of 1..=3 bytes, arbitrary error kind at an arbitrary read) and a recording stand-in "
+           "for the generator (Kani stubbing).  hash_file's File::open / metadata are operating-system I/O outside this technique.",
     "C19": "Complete-domain CBMC query for the FNV step; SMT inductive step (from MIR) for the rolling hash: value after "
            "any byte sequence is the stated function of the last seven bytes; bounded checks of the update forms.",
     "C20": "Every query quantifies over the complete finite domain named in the property (no bound).",
